@@ -17,7 +17,9 @@ ID = "C07"
 LEAN_MODULES = ["Barril.Props.C07"]
 DRIVERS = ["drv_intern"]
 DRIVER_EXE = "drv_intern"
-RULE = ("seeded histories (quick 300 x 30 steps; thorough: every sequence of length 4 over a pool of 14 "
+RULE = ("long histories (quick 4 x ~650 steps, thorough up to 4000 steps: hold quantities of every form, make that "
+        "many other distinct requests and derived results, repeat the held requests - identity) and "
+        "seeded histories (quick 300 x 30 steps; thorough: every sequence of length 4 over a pool of 14 "
         "operations + 5000 random x 30) of: ObtainQuantity in every form (str+category, str only, legacy "
         "spelling, list/tuple form, dict/OrderedDict form, default-unit form, captions None/''/text, malformed "
         "requests of every kind, also through the Scalar/Array constructors), CreateEmpty, CreateDerived, "
@@ -59,6 +61,8 @@ BAD_CAT = "no such category"
 CAPS = [None, None, None, "", "cap", "other"]
 MAX_EXP = 8          # arithmetic on operands with larger exponents is skipped by both sides (float overflow)
 MAX_CELLS = 8
+HELD = 12            # long histories: the equality rows / per-step snapshots cover the first HELD objects (+ a sample)
+IDENT_CLAUSE = "the same request repeated returns the identical object"
 
 
 # ------------------------------------------------------------------------------------------ generators
@@ -258,6 +262,54 @@ def gen_history(rng, n):
     return ops
 
 
+def held_requests():
+    """requests of every form whose results a long history holds on to"""
+    return [
+        dict(k="obtain", u=["s", "m"], c=["s", "length"], cap=None, via="obtain"),
+        dict(k="obtain", u=["s", "cm"], c=None, cap=None, via="scalar"),
+        dict(k="obtain", u=None, c=["s", "time"], cap=None, via="obtain"),
+        dict(k="obtain", u=["d", [["length", "m", 2, False], ["time", "s", -1, False]], True], c=None, cap=None, via="obtain"),
+        dict(k="obtain", u=["l", [["kg", 1, True], ["s", -2, True]], True], c=["q", ["mass", "time"], True], cap=None,
+             via="obtain"),
+        dict(k="empty", how="quantity"),
+        dict(k="obtain", u=["s", "<unknown>"], c=["s", "Unknown"], cap="held caption", via="obtain"),
+        dict(k="obtain", u=["s", "lbmole"], c=None, cap=None, via="obtain"),
+        dict(k="derived", items=[["volume", "m3", 1, False], ["time", "s", -1, False]], cap="cap"),
+        dict(k="obtain", u=["s", "km"], c=["s", "depth"], cap="", via="array" if False else "obtain"),
+    ]
+
+
+def gen_long(rng, all_units, n_fill):
+    """a long history: hold quantities, make n_fill OTHER distinct requests / derived results in the same
+    database, repeat the held requests (they must give the identical objects)"""
+    held = held_requests()
+    ops = [dict(o) for o in held]
+    units = list(all_units)
+    rng.shuffle(units)
+    ui = 0
+    for _ in range(n_fill):
+        i = len(ops)
+        f = rng.random()
+        if f < 0.45 and ui < len(units):
+            ops.append(dict(k="obtain", u=["s", units[ui]], c=None, cap=None, via=rng.choice(["obtain", "obtain", "scalar"])))
+            ui += 1
+        elif f < 0.62:
+            c, u = _pair(rng)
+            ops.append(dict(k="obtain", u=["s", u], c=["s", c], cap="f%d" % i, via="obtain"))
+        elif f < 0.72:
+            ops.append(dict(k="obtain", u=["s", "<unknown>"], c=["s", "Unknown"], cap="u%d" % i, via="obtain"))
+        elif f < 0.80:
+            ops.append(dict(k="derived", items=_items(rng, rng.choice([2, 3]), distinct=True), cap="d%d" % i))
+        else:                         # products, quotients and powers of earlier results
+            a = rng.randrange(i)
+            b = a if rng.random() < 0.25 else rng.randrange(i)
+            ops.append(dict(k="new", div=rng.random() < 0.4, a=a, b=b, x=0, lvl=rng.choice(["q", "s"]), sy="*"))
+            if ops[-1]["div"]:
+                ops[-1]["sy"] = "/"
+    ops += [dict(o) for o in held]
+    return ops, dict(held=len(held), fill=n_fill)
+
+
 def exhaustive_pool():
     """14 operations; references are relative (resolved when the history is laid out)"""
     od = lambda items: ["d", items, True]
@@ -342,8 +394,14 @@ def to_model(o):
     raise ValueError(k)
 
 
-def make_case(ops):
-    return dict(op="history", ops=[to_model(o) for o in ops], guard=[MAX_EXP, MAX_CELLS], _t=dict(ops=ops))
+def make_case(ops, long=None):
+    """long = dict(held=h, fill=n): a long history (h held requests, n filler steps, the h requests again); the
+    driver and the runner then work in 'light' mode (time linear in the history per step)"""
+    c = dict(op="history", ops=[to_model(o) for o in ops], guard=[MAX_EXP, MAX_CELLS], _t=dict(ops=ops))
+    if long:
+        c["light"] = True
+        c["_t"]["long"] = long
+    return c
 
 
 def model_line(c):
@@ -355,7 +413,12 @@ def case_key(c):
 
 
 def show(c):
-    return dict(history=c["_t"]["ops"])
+    ops, lg = c["_t"]["ops"], c["_t"].get("long")
+    if not lg:
+        return dict(history=ops)
+    h, n = lg["held"], lg["fill"]
+    return dict(held_requests=ops[:h], filler_block=dict(count=n, first=ops[h:h + 2], last=ops[h + n - 1:h + n]),
+                repeated=ops[h + n:])
 
 
 # ------------------------------------------------------------- what a creation request asks for
@@ -516,8 +579,10 @@ class Run:
     """executes one history on the real code and records, per step, what the model also reports,
     together with every violation of the property's clauses seen on the way (the oracle)"""
 
-    def __init__(self, world):
+    def __init__(self, world, light=False):
         self.w = world
+        self.light = light       # long history: per-step checks on the held objects and a moving sample only
+        self.cache_raw = []      # (key object, id of the quantity) parallel to self.cache
         self.known = []          # quantity objects by identity index
         self.index = {}          # id(obj) -> identity index
         self.snaps = []          # full snapshot per known quantity
@@ -535,8 +600,14 @@ class Run:
         self.notes[k] = self.notes.get(k, 0) + 1
 
     def bad(self, step, clause, **kw):
-        if len(self.viol) < 20:
+        if len(self.viol) < 20 or (clause in (IDENT_CLAUSE, FRESH_CLAUSE) and len(self.viol) < 40):
             self.viol.append(dict(step=step, clause=clause, **kw))
+
+    def sample(self, step, n):
+        """the indices < n looked at in this step: all of them, or (light) the held ones, the newest and a moving few"""
+        if not self.light or n <= HELD + 8:
+            return range(n)
+        return sorted(set(list(range(HELD)) + [n - 1, n - 2, n - 3] + [(step * 7 + d * 1013) % n for d in range(5)]))
 
     def reg(self, q):
         i = self.index.get(id(q))
@@ -751,13 +822,15 @@ class Run:
 
     def caller_mutates(self, step):
         """the caller changes the containers it passed; no quantity may notice"""
-        if not self.pending:
-            return True
-        for cont in self.pending:
-            _mutate(cont)
+        conts = [c for c in self.pending if isinstance(c, (dict, list, tuple))]
         self.pending = []
+        if not conts:
+            return True
+        for cont in conts:
+            _mutate(cont)
         ok = True
-        for i, q in enumerate(self.known):
+        for i in self.sample(step, len(self.known)):
+            q = self.known[i]
             s = full_snapshot(q)
             if s != self.snaps[i]:
                 ok = False
@@ -778,20 +851,22 @@ class Run:
         if len(items) < n_old_k:
             stable = False
             self.bad(step, "a cache entry disappeared")
-        for j, (k0, i0) in enumerate(self.cache):
+        for j in self.sample(step, n_old_k):
             if j >= len(items):
                 break
             k1, q1 = items[j]
-            if canon_key(k1) != k0 or self.index.get(id(q1)) != i0:
+            k0, i0 = self.cache[j]
+            if id(q1) != self.cache_raw[j][1] or not (k1 is self.cache_raw[j][0] or canon_key(k1) == k0):
                 stable = False
                 self.bad(step, "a cache entry changed", key=k0, was=i0, now=self.index.get(id(q1)))
                 break
         for k1, q1 in items[n_old_k:]:
             self.cache.append((canon_key(k1), self.reg(q1)))
+            self.cache_raw.append((k1, id(q1)))
         if result is not None and hasattr(result, "GetCategoryToUnitAndExps"):
             self.reg(result)
         # previously seen quantities: every getter, the hash and the caption are what they were
-        for i in range(n_old_q):
+        for i in self.sample(step, n_old_q):
             s = full_snapshot(self.known[i])
             if s != self.snaps[i]:
                 stable = False
@@ -803,7 +878,7 @@ class Run:
             self.snaps.append(full_snapshot(q))
             cells = _cells(q)
             eqs, hqs = [], []
-            for j in range(i + 1):
+            for j in (range(i + 1) if not self.light else [j for j in range(min(HELD, i))] + [i]):
                 p = self.known[j]
                 e1, e2 = (q == p), (p == q)
                 same_map = ([c[:3] for c in cells] == [c[:3] for c in _cells(p)]
@@ -857,8 +932,21 @@ class Run:
 
     def final_check(self, step):
         """the whole equality matrix once more at the end of the history"""
+        if self.light:               # the full sweep the per-step sample left out
+            items = list(self.w.db.quantities_cache.items())
+            for j, (raw, oid) in enumerate(self.cache_raw):
+                if j >= len(items) or id(items[j][1]) != oid or items[j][0] != raw:
+                    self.bad(step, "a cache entry changed", key=self.cache[j][0], was=self.cache[j][1], now=None)
+                    break
+            for i, q in enumerate(self.known):
+                s = full_snapshot(q)
+                if s != self.snaps[i]:
+                    self.bad(step, "a previously created quantity changed", identity=i, before=repr(self.snaps[i])[:300],
+                             after=repr(s)[:300])
+                    break
         for i, q in enumerate(self.known):
-            now = [j for j in range(i + 1) if q == self.known[j]]
+            js = range(i + 1) if not self.light else [j for j in range(min(HELD, i))] + [i]
+            now = [j for j in js if q == self.known[j]]
             if now != self.eqrows[i]:
                 self.bad(step, "the equality class of a quantity changed", identity=i, before=self.eqrows[i], after=now)
 
@@ -907,7 +995,7 @@ class Run:
                     rk = self.request_key(o)
                     if rk is not None:
                         if rk in self.requests and self.requests[rk] != r[1]:
-                            self.bad(step, "the same request repeated returns the identical object", request=o,
+                            self.bad(step, IDENT_CLAUSE, request=o,
                                      first=self.requests[rk], now=r[1])
                         self.requests.setdefault(rk, r[1])
                     if o["k"] in ("obtain", "derived", "mkcopy"):
@@ -944,11 +1032,11 @@ class Run:
         return out
 
 
-def run_history(ctx, ops, fresh=False):
+def run_history(ctx, ops, fresh=False, light=False):
     w = World() if fresh else ctx.world
     if not fresh:
         w.reset()
-    r = Run(w)
+    r = Run(w, light)
     out = r.run(ops)
     return out, r
 
@@ -968,6 +1056,7 @@ def setup(ctx):
             raise Infra("C07 generator pool: %r is not a unit of category %r any more" % (cur, c))
         if db.GetQuantityType(l) is not None:
             raise Infra("C07 generator pool: legacy spelling %r is a registered unit now" % (l,))
+    ctx.all_units = sorted(u for u in db.GetUnits() if u)
     ctx.reuse_checked = 0
 
 
@@ -992,19 +1081,30 @@ def _histories(ctx, salt):
             yield gen_history(rng, 30)
 
 
+def long_cases(ctx, salt):
+    rng = ctx.fresh_rng("C07long" + salt)
+    plan = [600, 620, 650, 700] if ctx.tier == "quick" else [700, 1500, 3000, 4000]
+    for n in plan:
+        ops, lg = gen_long(rng, ctx.all_units, n)
+        yield make_case(ops, lg)
+
+
 def cases(ctx):
     for ops in _histories(ctx, "corr"):
         yield make_case(ops)
+    for c in long_cases(ctx, "corr"):
+        yield c
 
 
 def impl(c, ctx):
     ops = c["_t"]["ops"]
     try:
-        out, r = run_history(ctx, ops)
+        light = bool(c.get("light"))
+        out, r = run_history(ctx, ops, light=light)
         # is reusing one database (memo tables cleared) observably the same as a fresh one?  checked on a sample
         if ctx.reuse_checked < 25:
             ctx.reuse_checked += 1
-            out2, _ = run_history(ctx, ops, fresh=True)
+            out2, _ = run_history(ctx, ops, fresh=True, light=light)
             if out2 != out:
                 return dict(err="other", detail="a reused private database (memo tables cleared) and a fresh one differ")
     except Infra:
@@ -1068,19 +1168,29 @@ def nontrivial(c, io):
 def oracle(c, ctx):
     ops = c["_t"]["ops"]
     try:
-        _out, r = run_history(ctx, ops, fresh=True)
+        _out, r = run_history(ctx, ops, fresh=True, light=bool(c.get("light")))
     except Exception as e:
         return dict(clause="history runner raised", error=repr(e))
     if r.viol:
-        first = [v for v in r.viol if v["clause"] == FRESH_CLAUSE] or r.viol
+        first = ([v for v in r.viol if v["clause"] == FRESH_CLAUSE] or [v for v in r.viol if v["clause"] == IDENT_CLAUSE]
+                 or r.viol)
         v = dict(first[0])
-        v["history_prefix"] = ops[: v["step"] + 1]
+        if c["_t"].get("long"):
+            lg = c["_t"]["long"]
+            v["history"] = dict(held_requests=lg["held"], filler_requests=lg["fill"],
+                                note="the held requests are ops[:held]; they are repeated after the filler block")
+            v["other_clauses_seen"] = sorted({w["clause"] for w in r.viol if w is not first[0]})
+        else:
+            v["history_prefix"] = ops[: v["step"] + 1]
         return v
     return None
 
 
 def search(ctx):
     rng = ctx.fresh_rng("C07search")
+    for c in long_cases(ctx, "search"):
+        yield c
+        break
     pool = exhaustive_pool()
     n = len(pool)
     for a in range(n):
@@ -1094,7 +1204,24 @@ def search(ctx):
 FRESH_CLAUSE = "arithmetic on cached quantities behaves as on a fresh database"
 
 
+def shrink_long(case, failure, ctx):
+    ops, lg = case["_t"]["ops"], case["_t"]["long"]
+    h, n = lg["held"], lg["fill"]
+    lo, hi = 0, n                      # invariant: hi filler steps fail
+    while lo + 1 < hi:
+        mid = (lo + hi) // 2
+        cand = make_case(ops[:h + mid] + ops[h + n:], dict(held=h, fill=mid))
+        f = oracle(cand, ctx)
+        if f and f.get("clause") == failure.get("clause"):
+            hi, case, failure = mid, cand, f
+        else:
+            lo = mid
+    return case, failure
+
+
 def shrink(case, failure, ctx):
+    if case["_t"].get("long"):
+        return shrink_long(case, failure, ctx)
     # an operation that fails (or gives another result) only because of what is cached is the more telling
     # failing input: if the found one is of another kind, try the short tuple-form histories first
     if failure.get("clause") != FRESH_CLAUSE:
